@@ -490,6 +490,8 @@ func contexts(category, snippet string) []string {
 		return []string{"func gsxF() " + snippet + "\n", "func gsxF() int " + snippet + "\n", "func gsxF() (int, error) " + snippet + "\n"}
 	case "decl":
 		return []string{snippet + "\n"}
+	case "file":
+		return []string{strings.TrimPrefix(strings.TrimSpace(snippet), "package cand") + "\n"}
 	}
 	return []string{snippet}
 }
@@ -520,6 +522,12 @@ func realise(model map[string]interface{}, spec *lazySpecView, rootPath, categor
 		node = r.buildPtr(rootPath, reflect.TypeOf(&ast.BlockStmt{})).Interface()
 	case "decl":
 		node = r.buildPtr(rootPath, reflect.TypeOf(&ast.FuncDecl{})).Interface()
+	case "file":
+		f := r.buildPtr(rootPath, reflect.TypeOf(&ast.File{})).Interface().(*ast.File)
+		f.Name = &ast.Ident{Name: "cand"}
+		f.Imports = nil
+		f.Comments = nil
+		node = f
 	default:
 		return nil, []string{"unsupported root category " + category}
 	}
@@ -539,8 +547,15 @@ func realise(model map[string]interface{}, spec *lazySpecView, rootPath, categor
 			continue
 		}
 		uses := collectUses(f)
+		unresolved := map[string]bool{}
+		for _, id := range f.Unresolved {
+			unresolved[id.Name] = true
+		}
 		var names []string
 		for n, u := range uses {
+			if !unresolved[n] {
+				continue // declared by the snippet itself
+			}
 			if n == "cand" || strings.HasPrefix(n, "gsxF") || n == "gsxp" || n == "gsxq" || n == "gsxL" {
 				continue
 			}
@@ -602,7 +617,8 @@ func realise(model map[string]interface{}, spec *lazySpecView, rootPath, categor
 		}
 	}
 	if len(out) == 0 {
-		notes = append(notes, "no type-correct realisation found for: "+firstLine(snippet))
+		_, terr := typeCheck("package cand\n\n" + contexts(category, snippet)[0])
+		notes = append(notes, "no type-correct realisation found for: "+strings.ReplaceAll(snippet, "\n", "⏎")+" (bare type error: "+terr+")")
 	}
 	return out, append(notes, r.problems...)
 }
